@@ -252,6 +252,9 @@ impl PivotFinder {
         let row_counter = SyncCounter::new();
 
         remain_rows.par_iter().for_each(|&i| { 
+            #[cfg(yui_verif)]
+            super::verif_hook::point("start", i, None, 0);
+
             let mut loc_pivots = init_tls(&loc_pivots_tls, || 
                 pivots.read().unwrap().clone()
             ).borrow_mut();
@@ -289,14 +292,31 @@ impl PivotFinder {
             // If changes are made in other threads, update `loc_pivots` and retry.
             // Otherwise, modify `pivots` and exit.
         
+            #[cfg(yui_verif)]
+            super::verif_hook::point("searched", w.row, Some(j), loc_pivots.count());
+
             let mut pivots = pivots.write().unwrap();
             w.update_diff(&loc_pivots, &pivots);
             
             if w.should_retry() { 
                 loc_pivots.update_from(&pivots);
+
+                #[cfg(yui_verif)] {
+                    let (row, len) = (w.row, pivots.count());
+                    drop(pivots);
+                    super::verif_hook::point("retry", row, Some(j), len);
+                }
+
                 continue
             } else { 
                 pivots.set(w.row, j);
+
+                #[cfg(yui_verif)] {
+                    let (row, len) = (w.row, pivots.count());
+                    drop(pivots);
+                    super::verif_hook::point("commit", row, Some(j), len);
+                }
+
                 break
             }    
         }
